@@ -92,7 +92,7 @@ def collect_traces(ctx, focus, total, tag, agg, chunk=250, race=False, runner=No
                 # seed: the blocking depends on the schedule (a runtime choice), not on the scenario.  It is a verdict only when the
                 # machine is demonstrably responsive - the other scenarios of this run took milliseconds each.
                 per = agg.get("per_scenario_s")
-                if per is not None and per < 0.2:
+                if per is not None and per < 1.0:
                     core.report(ctx, "provider calls blocked (10 s) in %d different scenarios %s (%s); the same seeds did not block again: the blocking depends on the schedule"
                                 % (len(agg["blocked_once"]), agg["blocked_once"], focus),
                                 {"driver": "joe", "scenario_seeds": agg["blocked_once"], "focus": focus, "goroutines": blocked["dump"],
